@@ -8,6 +8,7 @@ explored; Python only generates inputs, drives the library and records."""
 import collections
 import copy
 import json
+import os
 
 from .. import core
 
@@ -104,12 +105,15 @@ def reproducer(r):
 
 def run(ctx):
     quick = ctx.tier == "quick"
-    scale = 2 if quick else 6
+    scale = 3 if quick else 12
     res = ctx.drive("c02_cipher", ["all", scale], timeout=3000)
     recs = res["records"]
     if len(recs) < 1500:
         raise core.Machinery("recorder produced only %d records" % len(recs))
     recs = shard_order(balance(recs))
+    # 16 judge JVMs run at once; without a cap each may grow its heap to a quarter of the RAM before collecting (the kernel's OOM
+    # killer then takes one of them and the run ends as a machinery failure).  The live data of a shard is well below 1 GB.
+    os.environ.setdefault("JAVA_TOOL_OPTIONS", "-Xmx1536m")
     verdicts = ctx.validate(TRACE, recs, family="cipher-value", timeout=3000)
     per = collections.Counter()
     chosen = 0
